@@ -143,6 +143,7 @@ type execState struct {
 	statusHist  map[uint64][]int
 	capAtAccept map[string]string
 	lin         *linRecorder
+	modelOff    bool // model and implementation diverged earlier in this run
 	queryRng    uint64
 }
 
@@ -786,7 +787,7 @@ func (e *execState) runBlock(bi int, blk *Block, prev *Snap) (*blockObs, bool) {
 	bo.Cur = cur
 
 	// L2 witness: if the model met an ambiguous rate comparison and the implementation decided otherwise, re-run
-	if e.needWitness(bo.MPrev, cur) && injectedTx < 0 {
+	if !e.modelOff && e.needWitness(bo.MPrev, cur) && injectedTx < 0 {
 		w := &BlockWitness{Extended: map[uint64]bool{}}
 		for _, a := range cur.Auctions {
 			if int(a.ID) < len(prev.Auctions) {
@@ -833,16 +834,21 @@ func (e *execState) runBlock(bi int, blk *Block, prev *Snap) (*blockObs, bool) {
 			res.Stats.PreOK++
 		}
 	}
-	diverged := e.refine(bo)
+	diverged := false
+	if !e.modelOff {
+		diverged = e.refine(bo)
+	}
 	e.directOracles(bo)
-	if !forcedDiverge {
+	if !forcedDiverge && !e.modelOff {
 		e.checkHooksBlock(bo, br, mFx, false)
 	}
-	if e.opt.Trace {
+	if e.opt.Trace && !e.modelOff {
 		e.checkWriteSets(bo)
+	} else if e.node.Trace != nil {
+		e.node.Trace.Take()
 	}
 	e.shadowBlock(bo, txBytes)
-	if faultOf(blk, FJoinExport) != nil && !diverged {
+	if faultOf(blk, FJoinExport) != nil && !diverged && !e.modelOff {
 		e.joinExport(bo)
 	}
 	e.joinedBlock(bo, txBytes)
@@ -853,12 +859,15 @@ func (e *execState) runBlock(bi int, blk *Block, prev *Snap) (*blockObs, bool) {
 	if e.opt.OnBlock != nil {
 		e.opt.OnBlock(e, bo)
 	}
-	if !diverged && !forcedDiverge {
+	if !diverged && !forcedDiverge && !e.modelOff {
 		e.linRecordBlock(bo)
 	}
 	if diverged || forcedDiverge {
+		// Model and implementation disagree: the model's later expectations would be noise, but the
+		// implementation's own history goes on. The run continues model-free: blocks are still
+		// executed and only the oracles that read the implementation's records are evaluated.
 		res.Stats.Diverged = true
-		return bo, false
+		e.modelOff = true
 	}
 	return bo, true
 }
